@@ -86,7 +86,7 @@ impl MathOp {
                 ((x * y) >> 32) as i32
             }
             MathOp::Mulhu => {
-                let (x, y) = (x as u64, y as u64);
+                let (x, y) = (u64::from(x as u32), u64::from(y as u32));
                 ((x * y) >> 32) as i32
             }
             // NOTE: The RISC-V spec doesn't trap for integer division by zero,
